@@ -232,6 +232,7 @@ type Exec struct {
 	inputNames map[string]int
 	dom        map[string]*byteDom
 	multiVar   map[string]bool
+	known      map[string]uint64 // bytes whose domain has shrunk to a single value
 	DomHits    int
 	ModelHits  int
 	model      map[string]uint64 // an assignment known to satisfy the current pc (or nil)
@@ -290,15 +291,9 @@ func (d *byteDom) clear(v int)    { d[v>>6] &^= 1 << uint(v&63) }
 
 // singleByteVar returns the only variable of c if it is a single 8-bit variable.
 func singleByteVar(c *T) *T {
-	vars := map[string]*T{}
-	c.Vars(vars)
-	if len(vars) != 1 {
-		return nil
-	}
-	for _, v := range vars {
-		if v.S.K == sym.KBV && v.S.W == 8 {
-			return v
-		}
+	v := c.SingleVar()
+	if v != nil && v.S.K == sym.KBV && v.S.W == 8 && c.ByteTable() != nil {
+		return v
 	}
 	return nil
 }
@@ -316,30 +311,57 @@ func (e *Exec) addPC(c *T) {
 			e.model = nil
 		}
 	}
-	vars := map[string]*T{}
-	c.Vars(vars)
-	if len(vars) == 1 {
-		for n, v := range vars {
-			if v.S.K == sym.KBV && v.S.W == 8 {
-				d := e.domOf(n)
-				env := map[string]uint64{}
-				for x := 0; x < 256; x++ {
-					if !d.has(x) {
-						continue
-					}
-					env[n] = uint64(x)
-					r, ok := c.Eval(env)
-					if ok && r == 0 {
-						d.clear(x)
-					}
-				}
-				return
+	if v := singleByteVar(c); v != nil {
+		d := e.domOf(v.Name)
+		tab := c.ByteTable()
+		n, last := 0, 0
+		for x := 0; x < 256; x++ {
+			if d.has(x) && tab[x] == 0 {
+				d.clear(x)
+			}
+			if d.has(x) {
+				n++
+				last = x
 			}
 		}
+		if n == 1 {
+			e.known[v.Name] = uint64(last)
+		}
+		return
 	}
+	vars := map[string]*T{}
+	c.Vars(vars)
 	for n := range vars {
 		e.multiVar[n] = true
 	}
+}
+
+// smallDomVar: a byte variable of c whose domain has at most 16 values (and is not tied to
+// other bytes by a multi-variable conjunct), or nil.
+func (e *Exec) smallDomVar(c *T) *T {
+	vars := map[string]*T{}
+	c.Vars(vars)
+	var best *T
+	bestN := 17
+	for n, v := range vars {
+		if v.S.K != sym.KBV || v.S.W != 8 || e.multiVar[n] {
+			continue
+		}
+		if _, fixed := e.known[n]; fixed {
+			continue
+		}
+		d := e.domOf(n)
+		cnt := 0
+		for x := 0; x < 256; x++ {
+			if d.has(x) {
+				cnt++
+			}
+		}
+		if cnt < bestN || cnt == bestN && best != nil && n < best.Name {
+			best, bestN = v, cnt
+		}
+	}
+	return best
 }
 
 func (e *Exec) domOf(n string) *byteDom {
@@ -358,18 +380,10 @@ func (e *Exec) domCheck(c *T) int {
 		return -1
 	}
 	d := e.domOf(v.Name)
-	env := map[string]uint64{}
+	tab := c.ByteTable()
 	any := false
 	for x := 0; x < 256; x++ {
-		if !d.has(x) {
-			continue
-		}
-		env[v.Name] = uint64(x)
-		r, ok := c.Eval(env)
-		if !ok {
-			return -1
-		}
-		if r == 1 {
+		if d.has(x) && tab[x] == 1 {
 			any = true
 			break
 		}
@@ -391,6 +405,12 @@ func (e *Exec) feasible(c *T) bool {
 	if c.IsFalse() {
 		return false
 	}
+	if len(e.known) > 0 {
+		c = c.Subst(e.known)
+		if c.IsConst() {
+			return c.Val == 1
+		}
+	}
 	switch e.domCheck(c) {
 	case 0:
 		e.DomHits++
@@ -405,6 +425,27 @@ func (e *Exec) feasible(c *T) bool {
 			return true
 		}
 	}
+	if ForkStats != nil {
+		forkMu.Lock()
+		k := "QUERY " + e.curFn + " multi=" + fmt.Sprint(c.SingleVar() == nil) + " op=" + c.Op
+		ForkStats[k]++
+		if c.SingleVar() == nil && ForkStats[k] < 3 {
+			vars := map[string]*T{}
+			c.Vars(vars)
+			for n := range vars {
+				d := e.domOf(n)
+				cnt := 0
+				for x := 0; x < 256; x++ {
+					if d.has(x) {
+						cnt++
+					}
+				}
+				fmt.Println("MULTIQ var", n, "dom", cnt, "multi", e.multiVar[n], "sub", e.sub != nil)
+			}
+			fmt.Println("MULTIQ:", c.SMT())
+		}
+		forkMu.Unlock()
+	}
 	r, m := e.Solver.CheckModel(e.pc, c, e.inputs)
 	if r == sym.Sat && m != nil {
 		e.model = m
@@ -416,6 +457,53 @@ func (e *Exec) feasible(c *T) bool {
 func (e *Exec) Branch(c *T) bool {
 	if c.IsConst() {
 		return c.Val == 1
+	}
+	if len(e.known) > 0 && e.sub == nil {
+		c = c.Subst(e.known)
+		if c.IsConst() {
+			return c.Val == 1
+		}
+	}
+	// a condition over several bytes with small domains: fix one of them (fork over its values)
+	// and simplify, instead of asking the solver
+	if c.SingleVar() == nil && e.sub == nil && c.Op != "and" && c.Op != "or" && !(c.Op == "not" && (c.Args[0].Op == "and" || c.Args[0].Op == "or")) {
+		if v := e.smallDomVar(c); v != nil {
+			d := e.domOf(v.Name)
+			var vals []int
+			for x := 0; x < 256; x++ {
+				if d.has(x) {
+					vals = append(vals, x)
+				}
+			}
+			k := vals[e.Choose(len(vals), "concretise")]
+			e.addPC(sym.Eq(v, sym.BVC(8, uint64(k))))
+			e.known[v.Name] = uint64(k)
+			return e.Branch(c)
+		}
+	}
+	// split connectives so that path-condition conjuncts stay single-variable (decidable from
+	// the byte domains without the solver)
+	if c.SingleVar() == nil {
+		switch c.Op {
+		case "and":
+			for _, a := range c.Args {
+				if !e.Branch(a) {
+					return false
+				}
+			}
+			return true
+		case "or":
+			for _, a := range c.Args {
+				if e.Branch(a) {
+					return true
+				}
+			}
+			return false
+		case "not":
+			if in := c.Args[0]; in.Op == "and" || in.Op == "or" {
+				return !e.Branch(in)
+			}
+		}
 	}
 	if sc := e.sub; sc != nil {
 		// summarisation of a pure scalar function: explore both sides syntactically
@@ -523,17 +611,12 @@ func (sc *subCtx) domOf(e *Exec, n string) *byteDom {
 // split: can c be true / false for some value of the byte's current (local) domain?
 func (sc *subCtx) split(e *Exec, n string, c *T) (canT, canF bool) {
 	d := sc.domOf(e, n)
-	env := map[string]uint64{}
+	tab := c.ByteTable()
 	for x := 0; x < 256 && !(canT && canF); x++ {
 		if !d.has(x) {
 			continue
 		}
-		env[n] = uint64(x)
-		r, ok := c.Eval(env)
-		if !ok {
-			return true, true
-		}
-		if r == 1 {
+		if tab[x] == 1 {
 			canT = true
 		} else {
 			canF = true
@@ -548,14 +631,9 @@ func (sc *subCtx) narrow(e *Exec, c *T, val bool) {
 		return
 	}
 	d := sc.domOf(e, v.Name)
-	env := map[string]uint64{}
+	tab := c.ByteTable()
 	for x := 0; x < 256; x++ {
-		if !d.has(x) {
-			continue
-		}
-		env[v.Name] = uint64(x)
-		r, ok := c.Eval(env)
-		if ok && (r == 1) != val {
+		if d.has(x) && (tab[x] == 1) != val {
 			d.clear(x)
 		}
 	}
@@ -690,7 +768,23 @@ func (e *Exec) Assume(c *T) {
 	if c.IsTrue() {
 		return
 	}
-	if c.IsFalse() || !e.feasible(c) {
+	if c.IsFalse() {
+		panic(pathEnd{Kind: "assume", Msg: "assumption infeasible"})
+	}
+	if len(e.known) > 0 {
+		c = c.Subst(e.known)
+		if c.IsTrue() {
+			return
+		}
+	}
+	if c.SingleVar() == nil && !c.IsConst() {
+		// keep path-condition conjuncts single-variable: resolve the assumption by branching
+		if !e.Branch(c) {
+			panic(pathEnd{Kind: "assume", Msg: "assumption violated on this sub-path"})
+		}
+		return
+	}
+	if !e.feasible(c) {
 		panic(pathEnd{Kind: "assume", Msg: "assumption infeasible"})
 	}
 	e.addPC(c)
@@ -918,7 +1012,7 @@ type Opts struct {
 func RunPath(p *Program, solver *sym.Solver, fn *ssa.Function, prefix []int32, o Opts) (res *PathResult) {
 	e := &Exec{P: p, Solver: solver, prefix: prefix, globals: map[*ssa.Global]*Obj{}, cloneMemo: map[*Obj]*Obj{}, cloneMapMemo: map[*Map]*Map{},
 		MaxSteps: o.MaxSteps, MaxDepth: o.MaxDepth, MaxLoop: o.MaxLoop, MapOrderSymbolic: o.MapOrderSymbolic, inputNames: map[string]int{},
-		funcsSeen: map[string]bool{}, harness: fn.Name(), fixed: map[string]uint64{}, Known: o.Known, dom: map[string]*byteDom{}, multiVar: map[string]bool{}, sumBad: map[*ssa.Function]bool{}, writeLog: map[*Obj]bool{}, mapWrites: map[*Map]bool{}, Params: o.Params, Ext: map[string]interface{}{}}
+		funcsSeen: map[string]bool{}, harness: fn.Name(), fixed: map[string]uint64{}, Known: o.Known, dom: map[string]*byteDom{}, multiVar: map[string]bool{}, known: map[string]uint64{}, sumBad: map[*ssa.Function]bool{}, writeLog: map[*Obj]bool{}, mapWrites: map[*Map]bool{}, Params: o.Params, Ext: map[string]interface{}{}}
 	res = &PathResult{Prefix: prefix}
 	defer func() {
 		r := recover()
